@@ -26,6 +26,10 @@
     is `DynInv` for the caller's ledger (plus the returned roots); reordering is enabled iff it
     was; names, `bdd.roots`, held references by name (`DynLeft`).  The `except` loop releases the
     shelf's references by node NUMBER: numbers are stable under `swap`.
+  * `C17_load_json_rejected_start` — `load_order=False`, ANY content, from EVERY between-calls
+    state (`LoadStart`: reordering enabled or not, ANY number of variables — also fewer than two,
+    where a request that fires ends in the `ValueError` of sifting, the loader fails and
+    releases, and dynamic reordering is left switched OFF by the decorator): `JsonLeavesStart`.
   * `C17_load_json_noSignal` — the loader never lets the internal signal escape, either mode.
 
   The three defects found while proving these (all repaired in the code, mirrored by the model):
@@ -37,6 +41,9 @@
 import DDProofs.LoadJson2Order
 import DDProofs.LoadJson2Dyn
 import DDProps.C12Dyn
+import DDProofs.LoadJson2Few
+import DDProofs.UsedExample
+import DDProps.C17Load
 open Std
 namespace DD
 
@@ -82,6 +89,19 @@ theorem C17_load_json_rejected_dyn_means (e : Nat → Nat) (m m' : Mgr) (er : Er
   have hm : m.tbl.Mem u := hu.mem hr
   ⟨fun he => h.noSignal (by rw [he]), h.state, h.left.enabled, h.left.roots,
     (h.left.held u hu hm).1, (h.left.held u hu hm).2⟩
+
+/-- C17: `load_json(file, bdd, load_order=False)` on ANY content from EVERY state as between two
+calls: dynamic reordering enabled or not, ANY number of declared variables (`JsonLeavesStart`).
+With at least two variables once the line `level_of_var` is read this is
+`C17_load_json_rejected_dyn` (the switch is what it was).  With FEWER than two and reordering
+enabled, a request that fires inside `bdd.var` / `bdd.ite` makes `reorder(bdd)` raise (`ValueError`:
+sifting needs two variables); the decorator lets it through with `_last_len = None`; `_make_node`
+fails and the `except` clause releases the shelf: the state is good for the caller's ledger, every
+held reference keeps its function, dynamic reordering is OFF afterwards (`switch`: never turned
+on) -/
+theorem C17_load_json_rejected_start (f : JsonFile) (m : Mgr) (e : Nat → Nat) (h : LoadStart e m) :
+    JsonLeavesStart f e m (loadJson f false m) :=
+  loadJson_false_any_start f m e h
 
 /-- C17 / C09: `load_json` never lets the internal reordering signal `_NeedsReordering` escape —
 `load_order=True` from any between-calls state; `load_order=False` with reordering not enabled,
@@ -138,6 +158,44 @@ example : (loadJson jsonBad3 true exDyn).1 = .error .key ∧
 
 example : JsonOrderLeaves jsonBad3 exExt exDyn (loadJson jsonBad3 true exDyn) :=
   C17_load_json_order_any_dyn jsonBad3 (by decide) exDyn exExt exDyn_dynInv
+
+/-! ### fewer than two variables, reordering enabled and the trigger armed -/
+
+/-- one variable, one node -/
+def jsonOne : JsonFile := { levelOfVar := [("x", 0)], roots := .list [2], nodes := [⟨2, 0, -1, 1⟩] }
+
+/-- `BDD()` with dynamic reordering enabled and a request due -/
+def fewM : Mgr := { ({} : Mgr) with lastLen := some 1, fireIn := some 1 }
+
+/-- the request fires inside `bdd.var('x')`, `reorder(bdd)` raises `ValueError` (one variable),
+the load fails with it; `x` is declared, nothing else is left, and dynamic reordering is OFF -/
+example : (loadJson jsonOne false fewM).1 = .error .value ∧
+    (loadJson jsonOne false fewM).2.tbl.vars.toList = [("x", 0)] ∧
+    (loadJson jsonOne false fewM).2.tbl.succ.toList = [] ∧
+    (loadJson jsonOne false fewM).2.ref.toList = [(1, 1)] ∧
+    (loadJson jsonOne false fewM).2.lastLen = none := by decide +kernel
+
+example : JsonLeavesStart jsonOne (fun _ => 0) fewM (loadJson jsonOne false fewM) :=
+  C17_load_json_rejected_start jsonOne fewM _
+    ⟨⟨Inv.init.wf, Inv.init.pred, Inv.init.freeGe, Inv.init.free, Inv.init.refOne, Inv.init.refDom,
+      Inv.init.cache⟩, GoodState.init.order, GoodState.init.exact.congr rfl rfl, rfl, rfl,
+      fun _ h => by cases h⟩
+
+/-! ### a USED receiving manager (`usedM`: c < a < d < b, thirteen nodes, node 4 held once, node
+13 twice) and the ill-formed file `jsonBadUsed` in ANOTHER order (d < b < a < c) -/
+
+/-- `load_order=True`: the file's order is imposed on the used manager (its thirteen nodes are
+rewritten by the swaps, the garbage among them collected), then `KeyError` at the fourth line;
+the user's counts are what they were, dynamic reordering is off -/
+example : (loadJson jsonBadUsed true usedM).1 = .error .key ∧
+    (loadJson jsonBadUsed true usedM).2.tbl.vars.toList = [("a", 2), ("b", 1), ("c", 3), ("d", 0)] ∧
+    (loadJson jsonBadUsed true usedM).2.ref[4]? = some 1 ∧
+    (loadJson jsonBadUsed true usedM).2.ref[13]? = some 2 ∧
+    (loadJson jsonBadUsed true usedM).2.lastLen = none := by decide +kernel
+
+example : JsonOrderLeaves jsonBadUsed usedExt usedM (loadJson jsonBadUsed true usedM) :=
+  C17_load_json_order_any_off jsonBadUsed (by decide) usedM usedExt usedM_good usedM_shape.2.2.2.2.2.2
+    (by rw [usedM_shape.2.2.2.2.2.1]; intro r hr; cases hr)
 
 /-! ### the witnesses of F19 and F20 -/
 
